@@ -2438,7 +2438,11 @@ class GAM(Core, MetaTermMixin):
         """
         mu = self.predict_mu(X)  # Wood pg. 198 step 1
         coef_bootstraps = [self.coef_]
-        cov_bootstraps = [load_diagonal(self.statistics_['cov'])]
+        # the loading that makes the covariance numerically positive definite has to be
+        # relative to the covariance itself (per coefficient): an absolute sqrt(eps) swamps
+        # the covariance of a model fitted to a response in small units
+        cov = self.statistics_['cov']
+        cov_bootstraps = [load_diagonal(cov, load=np.sqrt(EPS) * np.diag(cov))]
 
         for _ in range(n_bootstraps - 1):  # Wood pg. 198 step 2
             # generate response data from fitted model (Wood pg. 198 step 3)
@@ -2473,7 +2477,8 @@ class GAM(Core, MetaTermMixin):
 
             coef_bootstraps.append(gam.coef_)
 
-            cov = load_diagonal(gam.statistics_['cov'])
+            cov = gam.statistics_['cov']
+            cov = load_diagonal(cov, load=np.sqrt(EPS) * np.diag(cov))
 
             cov_bootstraps.append(cov)
         return coef_bootstraps, cov_bootstraps
